@@ -46,7 +46,7 @@ theorem step_label (env : Env) (st : St) (p : PC) (wide : Bool) (s : List Nat) (
   simp [step, parseLabel, hlen, h0, h2, hd, parse_xlString wide s hs hl, hnl]
 
 theorem step_labelSst (env : Env) (st : St) (p : PC) (i : Nat) (s : List Nat) (hr : p.row < 65536)
-    (hc : p.col < 65536) (hx : p.xf < 65536) (hi : i < 4294967296) (hs : env.strings[i]? = some s) (hne : s ≠ []) :
+    (hc : p.col < 65536) (hx : p.xf < 65536) (hi : i < 4294967296) (hs : env.strings[i]? = some s) :
     step env st ⟨0x00FD, cellHdr p ++ le32 i, []⟩ =
       .ok { st with cells := st.cells ++ [(p.row, p.col, .str s)] } := by
   obtain ⟨h0, h2, _, hlen⟩ := hdr16 p (le32 i) hr hc hx
@@ -54,8 +54,7 @@ theorem step_labelSst (env : Env) (st : St) (p : PC) (i : Nat) (s : List Nat) (h
     rw [u32At_append_right _ _ _ (by simp [cellHdr_length]), cellHdr_length]
     have := u32_le32 i [] hi
     simpa [u32At] using this
-  have hemp : s.isEmpty = false := by cases s <;> simp_all
-  simp [step, parseLabelSst, hlen, h0, h2, h6, hs, hemp]
+  simp [step, parseLabelSst, hlen, h0, h2, h6, hs]
 
 theorem step_string (env : Env) (st : St) (wide : Bool) (s : List Nat) (hs : validText s)
     (hl : (toUnits s).length < 65536) :
@@ -191,7 +190,7 @@ theorem mulRkLoop_get (env : Env) (r : Bytes) (row : Nat) (n : Nat) : ∀ (off c
 
 /-- value of one element of an encoded run -/
 def runVal (env : Env) (q : PC) : Val :=
-  fmtNum env.ops (rkNum env.ops (rkWord q)) env.fmts[q.xf]? env.is1904
+  fmtNum (rkNum env.ops (rkWord q)) env.fmts[q.xf]? env.is1904
 
 def runCells (env : Env) (row : Nat) : Nat → List PC → List Cell
   | _, [] => []
